@@ -114,7 +114,8 @@ def graphql_case(draw):
                                 ["include", "name_pick", draw(st.integers(0, 5))], ["exclude", "name_pick", draw(st.integers(0, 5))], ["include", "name_list", draw(st.integers(0, 5))], ["exclude", "name_list", draw(st.integers(0, 5))]]))
     for c in configs:
         c["user_scalars"] = draw(st.sampled_from(["a", "a", "b"]))
-    return {"sdl": draw(sdl()), "via": draw(st.sampled_from(["sdl", "json"])), "configs": configs, "filter": flt, "draws": 6}
+    # lookups `schema[<root type>][<field>]` share a cache: the order in which the roots are asked matters
+    return {"sdl": draw(sdl()), "via": draw(st.sampled_from(["sdl", "json"])), "configs": configs, "filter": flt, "draws": 6, "lookup_order": draw(st.sampled_from(["none", "query-first", "mutation-first", "after-iteration"]))}
 
 
 def scalar_ok(name: str, node) -> bool:
@@ -208,7 +209,25 @@ def check_graphql(ctx: Ctx, inp) -> None:
         return hit if flt[0] == "include" else not hit
 
     expected = sorted(f"{t}.{f}" for t, f in roots if passes(f"{t}.{f}"))
+    order = inp.get("lookup_order", "none")
+
+    def lookups():
+        ordered = sorted(roots, key=lambda tf: (tf[0] != (gs.query_type.name if gs.query_type else "")) if order != "mutation-first" else (tf[0] == (gs.query_type.name if gs.query_type else "")))
+        for t, f in ordered:
+            try:
+                found = schema[t][f]
+            except Exception as exc:  # noqa: BLE001
+                ctx.disagree("lookup:raised:" + type(exc).__name__, f"schema[{t!r}][{f!r}] raised {exc!r}"[:300], input=inp)
+                continue
+            ctx.classes["lookup"] += 1
+            if found.label != f"{t}.{f}":
+                ctx.disagree("lookup:another-operation-returned", f"schema[{t!r}][{f!r}] returned {found.label} (lookup order {order})", input=inp)
+
+    if order in ("query-first", "mutation-first"):
+        lookups()
     ops = [r.ok() for r in schema.get_all_operations()]
+    if order == "after-iteration":
+        lookups()
     ctx.case(nontrivial=[h(text), "offered", flt] if (flt or gs.subscription_type) else None, classes=["offered", f"via={inp['via']}", "subscription" if gs.subscription_type else "no-subscription", "filter" if flt else "no-filter"], sample={"sdl": text, "filter": flt, "offered": expected})
     if sorted(o.label for o in ops) != expected:
         ctx.disagree("offered-operations-differ", f"offered {sorted(o.label for o in ops)} expected {expected}", input=inp)
@@ -293,6 +312,6 @@ FLOOR = {"graphql": 1000}
 MANIFEST = {
     "category": "exploration",
     "technique": "grammar-generated GraphQL SDL x loading route x settings sequences; every drawn query validated by graphql-core and structural / value predicates",
-    "text": "SDL documents from a grammar (enums, nested input objects, lists, non-null, interfaces, unions, shipped custom scalars and user-registered ones whose strategy is re-registered between draws, Query / Mutation / Subscription roots incl. renamed root types) are loaded as SDL or introspection JSON; for each offered operation cases are drawn under a sequence of settings (nulls on/off, allow_x00, codec) applied to the same schema object; each body must parse, validate, contain exactly one operation of the right kind selecting exactly the field under test, use parseable custom scalar literals and respect the null / NUL / codec settings in force; offered operations and statistic counts must equal the query and mutation root fields that pass the name filters (regex, exact name, list of names).",
+    "text": "SDL documents from a grammar (enums, nested input objects, lists, non-null, interfaces, unions, shipped custom scalars and user-registered ones whose strategy is re-registered between draws, Query / Mutation / Subscription roots incl. renamed root types) are loaded as SDL or introspection JSON; for each offered operation cases are drawn under a sequence of settings (nulls on/off, allow_x00, codec) applied to the same schema object; each body must parse, validate, contain exactly one operation of the right kind selecting exactly the field under test, use parseable custom scalar literals and respect the null / NUL / codec settings in force; offered operations and statistic counts must equal the query and mutation root fields that pass the name filters (regex, exact name, list of names); lookups schema[root][field] in drawn orders (query first, mutation first, after iteration) must return the operation asked for.",
     "note": "Trusts graphql-core.",
 }
